@@ -1,6 +1,6 @@
 (* C03 — PostgreSQL statement sequences are executable and leave the declared schema (interpreted by a
    PostgreSQL catalog model: coq/pg/Model/Engine.v, modelled, not verified).  Pinned statements only. *)
-From VV.PG Require Import WitnessP SimKindsP SimCreateP SimColumnP.
+From VV.PG Require Import WitnessP SimKindsP SimCreateP SimColumnP EnumP RenameColP DefaultP.
 
 (* ---------- the full-strength target (a definition, not a claim) ----------
    for every baseline and every action list whose replay succeeds, executing gen_plan from
@@ -232,6 +232,54 @@ Print Assumptions C03_sim_pg_create_table_partial.
 Check C03_sim_pg_create_table_partial : forall s tn cols ks,
   hyp_create_table s tn cols ks = true -> step_sim s (CreateTable tn cols ks).
 
+(* AddColumn of a string-enum column: CREATE TYPE first, then either sequence of AddColumn.  Outside the shared-enum,
+   case-fold and integer-enum classes (the type name is new, resolves to itself, no other column of the table carries
+   the enum name) *)
+Theorem C03_sim_pg_add_column_enum_partial : forall s tn col fw,
+  hyp_add_column_enum s tn col fw = true -> step_sim s (AddColumn tn col fw).
+Proof. exact sim_pg_add_column_enum. Qed.
+Print Assumptions C03_sim_pg_add_column_enum_partial.
+Check C03_sim_pg_add_column_enum_partial : forall s tn col fw,
+  hyp_add_column_enum s tn col fw = true -> step_sim s (AddColumn tn col fw).
+
+(* DeleteColumn of a string-enum column: DROP COLUMN, then DROP TYPE (no other column uses the type) *)
+Theorem C03_sim_pg_delete_column_enum_partial : forall s tn cn,
+  hyp_delete_column_enum s tn cn = true -> step_sim s (DeleteColumn tn cn).
+Proof. exact sim_pg_delete_column_enum. Qed.
+Print Assumptions C03_sim_pg_delete_column_enum_partial.
+Check C03_sim_pg_delete_column_enum_partial : forall s tn cn,
+  hyp_delete_column_enum s tn cn = true -> step_sim s (DeleteColumn tn cn).
+
+(* ModifyColumnType with a string enum on either side, all four statement sequences of modify_column_type.rs:
+   plain -> enum (CREATE TYPE, ALTER TYPE), enum -> plain (ALTER TYPE, DROP TYPE), enum -> enum of another name
+   (CREATE TYPE, [DROP DEFAULT], ALTER TYPE USING, DROP TYPE, [SET DEFAULT]) and enum -> the same name with other
+   values (the same through the temporary type {name}_new, then RENAME) *)
+Theorem C03_sim_pg_modify_column_type_enum_partial : forall s tn cn ty fw,
+  hyp_modify_type_enum s tn cn ty = true -> step_sim s (ModifyColumnType tn cn ty fw).
+Proof. exact sim_pg_modify_column_type_enum. Qed.
+Print Assumptions C03_sim_pg_modify_column_type_enum_partial.
+Check C03_sim_pg_modify_column_type_enum_partial : forall s tn cn ty fw,
+  hyp_modify_type_enum s tn cn ty = true -> step_sim s (ModifyColumnType tn cn ty fw).
+
+(* RenameColumn: no unnamed index / unique / foreign key of the table contains the column (their derived names would
+   embed it), no foreign key of another table references it, no foreign key of the table to ANOTHER table has a
+   referenced column of that name (apply.rs renames those too), the new name is not in the primary key *)
+Theorem C03_sim_pg_rename_column_partial : forall s tn a b,
+  hyp_rename_column s tn a b = true -> step_sim s (RenameColumn tn a b).
+Proof. exact sim_pg_rename_column. Qed.
+Print Assumptions C03_sim_pg_rename_column_partial.
+Check C03_sim_pg_rename_column_partial : forall s tn a b,
+  hyp_rename_column s tn a b = true -> step_sim s (RenameColumn tn a b).
+
+(* ModifyColumnDefault (Some x) with the stored text characterised: x is none of the spellings
+   convert_default_for_backend rewrites and carries no type cast; no comparison of rendered texts is assumed *)
+Theorem C03_sim_pg_modify_column_default_plain : forall s tn cn x,
+  hyp_modify_default_plain s tn cn x = true -> step_sim s (ModifyColumnDefault tn cn (Some x)).
+Proof. exact sim_pg_modify_column_default_plain. Qed.
+Print Assumptions C03_sim_pg_modify_column_default_plain.
+Check C03_sim_pg_modify_column_default_plain : forall s tn cn x,
+  hyp_modify_default_plain s tn cn x = true -> step_sim s (ModifyColumnDefault tn cn (Some x)).
+
 (* ---------- the hypotheses are satisfiable by non-trivial values ---------- *)
 Example ex_modify_comment : hyp_modify_comment w_d2 "post" "user_id" = true.
 Proof. vm_compute. reflexivity. Qed.
@@ -281,6 +329,27 @@ Proof. vm_compute. reflexivity. Qed.
 Example ex_add_column_backfill :
   hyp_add_column_backfill w_d2 "post" (mkCol "rank" (TSimple Integer) false None None None None None None) (Some "0") = true.
 Proof. vm_compute. reflexivity. Qed.
+Example ex_add_column_enum : hyp_add_column_enum w_t "t" (ncol "s" w_status) None = true
+  /\ hyp_add_column_enum w_enum_t "t" (ncol "s2" w_status) None = false.
+Proof. vm_compute. split; reflexivity. Qed.
+Example ex_delete_column_enum : hyp_delete_column_enum w_enum_t "t" "s" = true /\ hyp_delete_column_enum w_shared "t" "b" = false.
+Proof. vm_compute. split; reflexivity. Qed.
+Example ex_modify_type_enum :
+  hyp_modify_type_enum w_enum_t "t" "s" (TSimple Text) = true
+  /\ hyp_modify_type_enum w_enum_t "t" "s" (TEnum "status" (EVString ["on"; "off"; "idle"])) = true
+  /\ hyp_modify_type_enum w_enum_t "t" "s" (TEnum "state" (EVString ["a"])) = true
+  /\ hyp_modify_type_enum [mkTable "t" None [icol "id"; ncol "note" (TSimple Text)] [pk_id]] "t" "note" w_status = true
+  /\ hyp_modify_type_enum w_shared "t" "b" (TSimple Text) = false
+  /\ hyp_modify_type_enum w_enum_t "t" "s" w_level = false.
+Proof. vm_compute. repeat split. Qed.
+Example ex_rename_column : hyp_rename_column w_enum_t "t" "s" "state" = true /\ hyp_rename_column w_ix "t" "a" "b" = false
+  /\ hyp_rename_column w_d2 "user" "id" "uid" = false
+  /\ hyp_rename_column [mkTable "t" None [icol "id"; ncol "a" (TSimple Integer)] [pk_id; CIndex (Some "k") ["a"]]] "t" "a" "b" = true.
+Proof. vm_compute. repeat split. Qed.
+Example ex_modify_default_plain : hyp_modify_default_plain w_d2 "post" "user_id" "42" = true
+  /\ hyp_modify_default_plain w_d2 "post" "user_id" "now()" = false
+  /\ hyp_modify_default_plain w_enum_t "t" "s" "on" = true.
+Proof. vm_compute. repeat split. Qed.
 (* a two-migration history every step of which falls under a proved lemma, hence (C03_Sim_history) runs to catalog_of *)
 Example ex_history :
   run_history (catalog_of w_d2) w_d2
